@@ -103,6 +103,17 @@ CHECKS = {
             "Trusted: the fork start method, os._exit as the crash, deadlines of 25 s; crash points are message "
             "boundaries.", "TLC liveness check of MPSolver.tla with crashes + fault injection on the real "
             "MultiprocessingSolver (fork-inherited queue wrapper, no source hook)"),
+    "C19": ("model_checking", "spec/NucsMech.tla with stacks of 1..4 levels: the search never stands above the configured "
+            "height, the capacity error is raised only when the stack is really full, and whatever is enumerated is "
+            "complete and duplicate-free. On the code: engine traces with stacks of 1..5 levels replayed through "
+            "NucsAbs (nothing may follow a push above the height except the error), and a sweep of stack heights "
+            "(1..6, 127, 128, 253..257, 300, 512, 1000) x search depths around the height x value heuristics x both "
+            "execution modes, one process per scenario, judged by spec/Capacity.tla (right solutions, right depth "
+            "counter, normal exit).",
+            "Trusted: TLC, spec/NucsMech.tla, NucsAbs.tla, Capacity.tla; the sweep uses unconstrained problems "
+            "(n free variables); index-type limits of Problem.init were probed by hand (numpy raises).",
+            "TLC model checking of NucsMech with small stacks + TLA+ trace validation of engine traces with tiny "
+            "stacks + a process-level capacity sweep judged by spec/Capacity.tla"),
 }
 
 PENDING = "check under construction in this session (see DESIGN.md section 6 for the plan); not claimed until its machinery is committed"
